@@ -2,21 +2,21 @@
 
 Builds `LLMRails` instances (Colang 1.0 and 2.x) whose input/output rails are custom flows that
 each `execute` their own scripted action registered with `app.register_action`, with a
-recording FakeLLM, and drives multi-turn conversations through `LLMRails.generate`
-(messages API on ONE instance; Colang 2.x with the returned `state`).
+recording FakeLLM (tests/utils.py), and drives multi-turn conversations through
+`LLMRails.generate` (messages API on ONE instance; Colang 2.x with the returned `state`).
 
 A *case* is a JSON-able dict
 
-  {"ver": "v1"|"v2", "mode": "general"|"passthrough"|"dialog", "exc": bool,
-   "n_in": k, "n_out": m,
-   "turns": [{"user": <text>, "kind": "p"|"f"|"n"|"",      # dialog-turn kind (dialog mode only)
-              "iv": [verdict per input rail], "ov": [verdict per output rail]}]}
+  {"ver": "v1"|"v2", "mode": "general"|"passthrough"|"dialog", "exc": bool, "n_in": k, "n_out": m,
+   "turns": [{"user": <text>, "iv": [verdict per input rail], "ov": [verdict per output rail],
+              "llm": [completion of the i-th LLM call of the turn, ...]}]}
 
-verdict: "a" accept | "r" reject | "w" rewrite (the rewritten text is a unique marker computed by
-`rw_text`).  `run_case` returns, per turn, the ordered observation list
-  ["I", k, text_seen] | ["O", k, text_seen] | ["L", kind, call_idx, [markers present in the prompt]]
-and the reply (content or the exception message) plus the persistent flag after the turn.
-Nothing here knows what the property demands; it only observes.
+verdict: "a" accept | "r" reject | ["w", <text>] rewrite to <text>.
+`run_case` returns per turn
+  {"obs": [["I", k, text_seen] | ["O", k, text_seen] | ["L", task, call_idx, [marker texts in the prompt]]],
+   "reply": ["msg", content] | ["exc", type, message], "flag": bool, "ctx": {...}}
+Nothing here knows what the property demands; it only drives and observes.  The Coq side of the
+same case is printed by `case_term` and evaluated by Pipe/PipeRun.v (check_v1 / check_v2).
 """
 from __future__ import annotations
 
@@ -24,30 +24,18 @@ import json
 import logging
 import os
 import re
+import subprocess
 import sys
 
 from harness import common as C
 
-REFUSAL = "REFUSAL-MSG"
-PREDEF = "PREDEF-HELLO"
-V2_REFUSAL_IN = "REFUSAL-MSG"
-V2_REFUSAL_OUT = "REFUSAL-MSG"
+REFUSAL = "RFz"
+PREDEF = "PDz"
+REFUSAL_OUT = "RFOz"
 
-MARK_RE = re.compile(r"\b(?:U|RI|RO|L)[0-9]+(?:x[0-9]+)*z\b")
-
-
-def user_text(t, salt=""):
-    return f"U{t}z{salt}"
-
-
-def rw_text(side, t, k, j=0):
-    """Unique marker text a rewriting rail k returns at turn t (side 'I'/'O'; j = bot message idx)."""
-    return f"R{side}{t}x{k}x{j}z"
-
-
-def llm_text(t, i):
-    """Unique marker carried by the i-th LLM completion of turn t."""
-    return f"L{t}x{i}z"
+# every text that travels through the pipeline is ONE marker token; prompts are observed as the
+# set of marker tokens they contain
+MARK_RE = re.compile(r"(?<![A-Za-z0-9])(?:U|RI|RO|L|RF|RFO|PD|X)[0-9]*(?:[xy][0-9a-f]+)*z(?![A-Za-z0-9])")
 
 
 def in_exc_msg(k):
@@ -59,7 +47,8 @@ def out_exc_msg(k):
 
 
 # ---------------------------------------------------------------------------------------
-# embedding search provider (deterministic, exact substring; no model download)
+# embedding search provider (deterministic, returns the items in insertion order; no model
+# download).  Registered through a config.py `init(app)` hook, the documented way.
 
 CFG_DIR = os.path.join(C.BUILD, "pipe_cfg")
 CONFIG_PY = '''
@@ -113,14 +102,10 @@ class Recorder:
     """Mutable script + observation log shared by the scripted actions and the fake LLM."""
 
     def __init__(self):
-        self.turn = 0
-        self.iv = []
-        self.ov = []
+        self.iv, self.ov, self.llm = [], [], []
         self.obs = []
         self.llm_i = 0
-        self.kind = ""
-        self.out_j = 0   # index of the bot message currently being checked (by first out rail call)
-        self.llm_script = None
+        self.mode = ""
 
 
 def _mk_llm(rec):
@@ -130,10 +115,24 @@ def _mk_llm(rec):
     class RecLLM(FakeLLM):
         def _reply(self, prompt):
             text = prompt if isinstance(prompt, str) else json.dumps(prompt, default=str)
-            kind, resp = rec.llm_script(text)
-            rec.obs.append(["L", kind, rec.llm_i, sorted(set(MARK_RE.findall(text)))])
+            task = None
+            try:
+                from nemoguardrails.context import llm_call_info_var
+
+                info = llm_call_info_var.get()
+                task = getattr(info, "task", None)
+            except Exception:  # noqa: BLE001
+                pass
+            if rec.mode == "v2":
+                task = "value"
+            elif rec.mode == "passthrough" and task == "general":
+                task = "passthrough"
+            rec.obs.append(["L", task, rec.llm_i, sorted(set(MARK_RE.findall(text)))])
+            i = rec.llm_i
             rec.llm_i += 1
-            return resp
+            if i >= len(rec.llm):
+                raise RuntimeError(f"unscripted LLM call {i}")
+            return rec.llm[i]
 
         def _call(self, prompt, stop=None, run_manager=None, **kw):
             return self._reply(prompt)
@@ -190,12 +189,21 @@ define bot express greeting
 """
 
 
+def _verdict_value(v):
+    if v == "a":
+        return None
+    if v == "r":
+        return "__REJECT__"
+    return v[1]
+
+
 def build_v1(n_in, n_out, mode, exc):
     logging.disable(logging.CRITICAL)
     sys.path.insert(0, C.REPO)
     from nemoguardrails import LLMRails, RailsConfig
 
     rec = Recorder()
+    rec.mode = mode
     co = f'define bot refuse to respond\n  "{REFUSAL}"\n'
     for k in range(n_in):
         co += V1_RAIL_IN.format(k=k, msg=in_exc_msg(k))
@@ -216,20 +224,23 @@ def build_v1(n_in, n_out, mode, exc):
     config.config_path = ensure_cfg_dir()
     app = LLMRails(config, llm=_mk_llm(rec))
 
+    from nemoguardrails.actions import action
+
+    # rail actions are system actions, like the library's (self_check_input, mask_sensitive_data, ...):
+    # the return value of a NON-system action is rendered into the colang history of later
+    # dialog prompts ("# The result was ..."), which is a property of that action, not of the gate
     def mk_in(k):
+        @action(name=f"in_rail_{k}", is_system_action=True)
         async def act(context=None):
             rec.obs.append(["I", k, (context or {}).get("user_message")])
-            v = rec.iv[k] if k < len(rec.iv) else "a"
-            return {"a": None, "r": "__REJECT__", "w": rw_text("I", rec.turn, k)}[v]
+            return _verdict_value(rec.iv[k] if k < len(rec.iv) else "a")
         return act
 
     def mk_out(k):
+        @action(name=f"out_rail_{k}", is_system_action=True)
         async def act(context=None):
-            if k == 0 or not any(o[0] == "O" for o in rec.obs):
-                pass
             rec.obs.append(["O", k, (context or {}).get("bot_message")])
-            v = rec.ov[k] if k < len(rec.ov) else "a"
-            return {"a": None, "r": "__REJECT__", "w": rw_text("O", rec.turn, k)}[v]
+            return _verdict_value(rec.ov[k] if k < len(rec.ov) else "a")
         return act
 
     for k in range(n_in):
@@ -239,32 +250,14 @@ def build_v1(n_in, n_out, mode, exc):
     return app, rec
 
 
-def _v1_llm_script(rec, mode):
-    def script(prompt_text):
-        i = rec.llm_i
-        m = llm_text(rec.turn, i)
-        if mode in ("general", "passthrough"):
-            return ("general" if mode == "general" else "passthrough"), f"{m}"
-        # dialog: decide by the task the prompt belongs to (sniff the rendered template tail)
-        kind = rec.kind
-        n_calls_before = i
-        if n_calls_before == 0:
-            intent = {"p": "express greeting", "f": "ask question", "n": "ask something else"}[kind]
-            return "intent", f"  {intent} {m}" if False else f"  {intent}"
-        if kind == "n" and n_calls_before == 1:
-            return "next", "bot respond something"
-        return "botmsg", f'  "{m}"'
-    return script
-
-
 def run_v1(app, rec, case):
-    mode = case["mode"]
+    from nemoguardrails.colang.v1_0.runtime.flows import compute_context
+
     app.events_history_cache.clear()
-    rec.llm_script = _v1_llm_script(rec, mode)
     history = []
     turns_out = []
-    for t, turn in enumerate(case["turns"]):
-        rec.turn, rec.iv, rec.ov, rec.kind = t, turn["iv"], turn["ov"], turn.get("kind", "")
+    for turn in case["turns"]:
+        rec.iv, rec.ov, rec.llm = turn["iv"], turn["ov"], turn.get("llm", [])
         rec.obs, rec.llm_i = [], 0
         history.append({"role": "user", "content": turn["user"]})
         try:
@@ -277,21 +270,383 @@ def run_v1(app, rec, case):
         else:
             reply = ["msg", res.get("content")]
         history.append(res)
-        # persistent context as the next turn will see it
-        from nemoguardrails.colang.v1_0.runtime.flows import compute_context
-        ck = None
-        for key, evs in app.events_history_cache.items():
-            ck = evs
-        ctx = compute_context(ck) if ck else {}
-        turns_out.append({"obs": rec.obs, "reply": reply,
-                          "skip": bool(ctx.get("skip_output_rails")),
-                          "ctx": {k: ctx.get(k) for k in ("user_message", "bot_message", "triggered_input_rail", "triggered_output_rail")}})
+        # the persistent context as the next turn will see it: computed from the cached events
+        evs = None
+        for _key, evs in app.events_history_cache.items():
+            pass
+        ctx = compute_context(evs) if evs else {}
+        turns_out.append({"obs": rec.obs, "reply": reply, "flag": bool(ctx.get("skip_output_rails")),
+                          "ctx": {k: ctx.get(k) for k in ("user_message", "bot_message", "triggered_input_rail",
+                                                           "triggered_output_rail")}})
     return turns_out
 
 
-if __name__ == "__main__":
-    case = json.loads(sys.argv[1])
+V2_MAIN = """
+import core
+import guardrails
+
+flow main
+  activate answering
+
+flow answering
+  user said something as $ref
+  $answer = ..."Answer the user: {$ref.transcript}"
+  bot say $answer
+"""
+
+V2_IN_HEAD = "flow input rails $input_text\n"
+V2_IN_RAIL = """  $v{k} = await InRail{k}Action(text=$input_text)
+  if $v{k} == "reject"
+    if $system.config.enable_rails_exceptions
+      send InputRailException(message="{msg}")
+    else
+      bot say "{refusal}"
+    abort
+"""
+V2_OUT_HEAD = "flow output rails $output_text\n"
+V2_OUT_RAIL = """  $v{k} = await OutRail{k}Action(text=$output_text)
+  if $v{k} == "reject"
+    if $system.config.enable_rails_exceptions
+      send OutputRailException(message="{msg}")
+    else
+      bot say "{refusal}"
+    abort
+"""
+
+
+def build_v2(n_in, n_out, exc):
+    logging.disable(logging.CRITICAL)
+    sys.path.insert(0, C.REPO)
+    from nemoguardrails import LLMRails, RailsConfig
+
+    rec = Recorder()
+    rec.mode = "v2"
+    co = V2_MAIN
+    if n_in:
+        co += "\n" + V2_IN_HEAD + "".join(V2_IN_RAIL.format(k=k, msg=in_exc_msg(k), refusal=REFUSAL) for k in range(n_in))
+    if n_out:
+        co += "\n" + V2_OUT_HEAD + "".join(V2_OUT_RAIL.format(k=k, msg=out_exc_msg(k), refusal=REFUSAL_OUT) for k in range(n_out))
+    yml = 'colang_version: "2.x"\nmodels: []\n'
+    if exc:
+        yml += "enable_rails_exceptions: true\n"
+    yml += "core:\n  embedding_search_provider:\n    name: verif\n"
+    config = RailsConfig.from_content(co, yml)
+    config.config_path = ensure_cfg_dir()
+    app = LLMRails(config, llm=_mk_llm(rec))
+
+    def mk(side, k):
+        async def act(text=None):
+            rec.obs.append([side, k, text])
+            vs = rec.iv if side == "I" else rec.ov
+            v = vs[k] if k < len(vs) else "a"
+            return "reject" if v == "r" else "accept"
+        return act
+
+    for k in range(n_in):
+        app.register_action(mk("I", k), f"InRail{k}Action")
+    for k in range(n_out):
+        app.register_action(mk("O", k), f"OutRail{k}Action")
+    return app, rec
+
+
+def run_v2(app, rec, case):
+    from nemoguardrails.colang.v2_x.runtime.serialization import json_to_state
+
+    state = {}
+    turns_out = []
+    for turn in case["turns"]:
+        rec.iv, rec.ov, rec.llm = turn["iv"], turn["ov"], turn.get("llm", [])
+        rec.obs, rec.llm_i = [], 0
+        try:
+            res = app.generate(messages=[{"role": "user", "content": turn["user"]}], state=state)
+        except Exception as e:  # noqa: BLE001
+            turns_out.append({"obs": rec.obs, "error": f"{type(e).__name__}: {e}"[:300]})
+            break
+        state = res.state
+        msg = res.response[0]
+        excs = [e for e in msg.get("events", []) if str(e.get("type", "")).endswith("Exception")]
+        if excs:
+            reply = ["exc", excs[-1].get("type"), excs[-1].get("message"), msg.get("content")]
+        else:
+            reply = ["msg", msg.get("content")]
+        try:
+            st = json_to_state(state["state"])
+            flag = bool(st.context.get("output_rails_in_progress"))
+            ctx = {k: st.context.get(k) for k in ("user_message", "bot_message", "last_bot_message")}
+        except Exception as e:  # noqa: BLE001
+            flag, ctx = None, {"error": repr(e)[:200]}
+        turns_out.append({"obs": rec.obs, "reply": reply, "flag": flag, "ctx": ctx})
+    return turns_out
+
+
+_APPS = {}
+
+
+def run_case(case):
+    key = (case["ver"], case["n_in"], case["n_out"], case.get("mode", ""), case["exc"])
+    if key not in _APPS:
+        _APPS[key] = (build_v1(case["n_in"], case["n_out"], case["mode"], case["exc"]) if case["ver"] == "v1"
+                      else build_v2(case["n_in"], case["n_out"], case["exc"]))
+    app, rec = _APPS[key]
+    return run_v1(app, rec, case) if case["ver"] == "v1" else run_v2(app, rec, case)
+
+
+# ---------------------------------------------------------------------------------------
+# parallel execution: chunks of cases in child processes (each under a shell timeout)
+
+
+def run_cases_parallel(cases, tag, jobs=None, timeout=900):
+    jobs = jobs or C.NPROC
+    d = os.path.join(C.BUILD, "pipe", tag)
+    os.makedirs(d, exist_ok=True)
+    # interleave so that every worker gets a similar mix (an LLMRails instance is built once per
+    # configuration and process; there are few configurations)
+    n_chunks = max(1, min(jobs, len(cases)))
+    chunks = [list(range(ci, len(cases), n_chunks)) for ci in range(n_chunks)]
+    procs = []
+    env = dict(os.environ)
+    env.update(C.impl_env())
+    for ci, idxs in enumerate(chunks):
+        pin, pout = os.path.join(d, f"in_{ci}.json"), os.path.join(d, f"out_{ci}.json")
+        with open(pin, "w") as f:
+            json.dump([cases[i] for i in idxs], f)
+        if os.path.exists(pout):
+            os.remove(pout)
+        errf = open(os.path.join(d, f"err_{ci}.log"), "w")
+        p = subprocess.Popen(["timeout", str(timeout), C.PY, "-m", "harness.pipe_driver", "--worker", pin, pout],
+                             cwd=C.VERIF, env=env, stdout=subprocess.DEVNULL, stderr=errf)
+        procs.append((p, idxs, pout, errf))
+    results = [None] * len(cases)
+    errors = []
+    for p, idxs, pout, errf in procs:
+        p.wait()
+        errf.close()
+        if p.returncode != 0 or not os.path.exists(pout):
+            tail = open(errf.name, errors="replace").read()[-1500:]
+            errors.append(f"worker rc={p.returncode}: {tail}")
+            continue
+        outs = json.load(open(pout))
+        for i, o in zip(idxs, outs):
+            results[i] = o
+    return results, errors
+
+
+def _worker(pin, pout):
+    cases = json.load(open(pin))
+    outs = []
+    for c in cases:
+        try:
+            outs.append(run_case(c))
+        except Exception as e:  # noqa: BLE001 - building/driving failed: reported as an observation
+            outs.append([{"obs": [], "error": f"driver: {type(e).__name__}: {e}"[:300]}])
+    with open(pout, "w") as f:
+        json.dump(outs, f)
+
+
+# ---------------------------------------------------------------------------------------
+# Coq terms
+
+PREAMBLE = """From Coq Require Import List String Bool Arith.
+From NG Require Import Pipe.Rails Pipe.TurnV1 Pipe.TurnV2 Pipe.PipeRun.
+Import ListNotations.
+Open Scope string_scope.
+Open Scope list_scope.
+"""
+
+
+def coq_verdict(v):
+    if v == "a":
+        return "Accept"
+    if v == "r":
+        return "Reject"
+    return f"(Rewrite {C.coq_string(v[1])})"
+
+
+def coq_opt_str(x):
+    return "None" if x is None else f"(Some {C.coq_string(str(x))})"
+
+
+KIND = {"general": "KGeneral", "passthrough": "KPassthrough", "generate_user_intent": "KIntent",
+        "generate_next_steps": "KNext", "generate_bot_message": "KBotMsg", "value": "KValue"}
+
+
+def rail_id(name):
+    m = re.fullmatch(r"(in|out) rail (\d+)", name or "")
+    if not m:
+        return None
+    return int(m.group(2)) + (100 if m.group(1) == "out" else 0)
+
+
+def coq_opt_rail(name):
+    if name is None:
+        return "None"
+    r = rail_id(name)
+    return "(Some 999)" if r is None else f"(Some {r})"
+
+
+def parse_exc(reply):
+    """('I'|'O', k) of a rail-exception reply, or None."""
+    typ, msg = reply[1], reply[2] or ""
+    m = re.fullmatch(r"(Input|Output) blocked by (in|out) rail (\d+)", msg)
+    if m and typ == m.group(1) + "RailException" and (m.group(1) == "Input") == (m.group(2) == "in"):
+        return ("I" if m.group(1) == "Input" else "O"), int(m.group(3))
+    return None
+
+
+def coq_reply(reply):
+    if reply[0] == "msg":
+        content = reply[1]
+        parts = [] if content in ("", None) else str(content).split("\n")
+        return "(RMsg " + C.coq_list([C.coq_string(p) for p in parts]) + ")"
+    pe = parse_exc(reply)
+    if pe:
+        return f"(RExc SIn {pe[1]})" if pe[0] == "I" else f"(RExc SOut {100 + pe[1]})"
+    return '(RMsg ["<unrecognised exception>"])'
+
+
+def coq_obs(o):
+    if o[0] in ("I", "O"):
+        side = "SIn" if o[0] == "I" else "SOut"
+        rid = o[1] + (100 if o[0] == "O" else 0)
+        return f"(ORail {side} {rid} {C.coq_string('<None>' if o[2] is None else str(o[2]))})"
+    kind = KIND.get(o[1]) or "KGeneral"
+    return f"(OLLM {kind} {o[2]} {C.coq_list([C.coq_string(m) for m in o[3]])})"
+
+
+def coq_exp(ver, t):
+    if "error" in t:
+        # an exception escaped `generate`: never equal to anything the model produces
+        return '(mkExp [] (RMsg ["<generate raised>"]) false None None None None)'
+    ctx = t["ctx"]
+    ti = coq_opt_rail(ctx.get("triggered_input_rail")) if ver == "v1" else "None"
+    to = coq_opt_rail(ctx.get("triggered_output_rail")) if ver == "v1" else "None"
+    return ("(mkExp " + C.coq_list([coq_obs(o) for o in t["obs"]]) + " " + coq_reply(t["reply"]) + " "
+            + C.coq_bool(bool(t["flag"])) + " " + coq_opt_str(ctx.get("user_message")) + " "
+            + coq_opt_str(ctx.get("bot_message")) + " " + ti + " " + to + ")")
+
+
+def coq_turns(case):
+    ts = []
+    for t in case["turns"]:
+        ts.append("(mkTC " + C.coq_string(t["user"]) + " " + C.coq_list([coq_verdict(v) for v in t["iv"]]) + " "
+                  + C.coq_list([coq_verdict(v) for v in t["ov"]]) + " "
+                  + C.coq_list([C.coq_string(x) for x in t.get("llm", [])]) + ")")
+    return C.coq_list(ts)
+
+
+def coq_cfg(case):
+    ins = C.coq_list([str(k) for k in range(case["n_in"])])
+    outs = C.coq_list([str(100 + k) for k in range(case["n_out"])])
     if case["ver"] == "v1":
-        app, rec = build_v1(case["n_in"], case["n_out"], case["mode"], case["exc"])
-        for t in run_v1(app, rec, case):
+        return (f"(mkCfg {ins} {outs} {C.coq_bool(case['mode'] == 'dialog')} {C.coq_bool(case['exc'])} "
+                f"{C.coq_bool(case['mode'] == 'passthrough')})")
+    return f"(mkCfg2 {ins} {outs} {C.coq_bool(case['exc'])})"
+
+
+def case_term(case, observed):
+    exps = C.coq_list([coq_exp(case["ver"], t) for t in observed])
+    # a conversation cut short by an escaping exception is compared against the full model run => mismatch
+    return f"({coq_cfg(case)}, {coq_turns(case)}, {exps})"
+
+
+# ---------------------------------------------------------------------------------------
+# case generation (texts are unique marker tokens)
+
+
+def llm_script(mode, ver, t, kind, salt=""):
+    """Scripted completions of turn t (what the FakeLLM returns at call 0, 1, 2)."""
+    if ver == "v2":
+        return [f'"L{t}x0{salt}z"']
+    if mode in ("general", "passthrough"):
+        return [f"L{t}x0{salt}z"]
+    if kind == "p":
+        return ["  express greeting"]
+    if kind == "f":
+        return ["  ask question", f'  "L{t}x1{salt}z"']
+    return ["  ask something else", "bot respond something", f'  "L{t}x2{salt}z"']
+
+
+def mk_turn(ver, mode, t, iv, ov, kind="", salt=""):
+    def vv(side, k, v):
+        return ["w", f"R{side}{t}x{k}{salt}z"] if v == "w" else v
+    return {"user": f"U{t}{salt}z", "iv": [vv("I", k, v) for k, v in enumerate(iv)],
+            "ov": [vv("O", k, v) for k, v in enumerate(ov)], "kind": kind,
+            "llm": llm_script(mode, ver, t, kind, salt)}
+
+
+def all_vectors(n, alphabet):
+    if n == 0:
+        return [[]]
+    return [[a] + rest for a in alphabet for rest in all_vectors(n - 1, alphabet)]
+
+
+
+V1_CONFIGS = [("general", False), ("general", True), ("passthrough", False), ("dialog", False), ("dialog", True)]
+
+
+def rand_vec(rng, n, alphabet, p_accept=0.6):
+    return [("a" if rng.random() < p_accept else rng.choice(alphabet)) for _ in range(n)]
+
+
+def gen_cases(focus, tier, rng):
+    """focus 'in' (C01) / 'out' (C02): every verdict vector of the focused side at every turn
+    position of a conversation, for every configuration; the other turns and the other side
+    are drawn from rng.  thorough adds 4 rails / 4-5 turns / salted (random) texts."""
+    cases = []
+    T = 3 if focus == "in" else 4
+    shapes_v1 = [(3, 1), (2, 2), (1, 0)] if focus == "in" else [(1, 2), (2, 1), (0, 1)]
+    shapes_v2 = [(3, 1), (2, 2), (1, 0)] if focus == "in" else [(1, 2), (2, 1), (0, 1)]
+
+    def conv(ver, mode, exc, n_in, n_out, p, vec, T, salt=""):
+        alpha = ["a", "r", "w"] if ver == "v1" else ["a", "r"]
+        turns = []
+        for t in range(T):
+            iv = rand_vec(rng, n_in, alpha)
+            ov = rand_vec(rng, n_out, alpha)
+            if t == p:
+                if focus == "in":
+                    iv = list(vec)
+                else:
+                    ov = list(vec)
+                    iv = ["a"] * n_in if rng.random() < 0.8 else iv
+            kind = rng.choice(["p", "f", "n", "f"]) if mode == "dialog" else ""
+            if mode == "dialog" and focus == "out" and t == p:
+                kind = rng.choice(["f", "n", "f", "p"])
+            turns.append(mk_turn(ver, mode, t, iv, ov, kind, salt))
+        return {"ver": ver, "mode": mode, "exc": exc, "n_in": n_in, "n_out": n_out, "turns": turns}
+
+    for mode, exc in V1_CONFIGS:
+        for n_in, n_out in shapes_v1:
+            n = n_in if focus == "in" else n_out
+            for p in range(T):
+                for vec in all_vectors(n, ["a", "r", "w"]):
+                    cases.append(conv("v1", mode, exc, n_in, n_out, p, vec, T))
+    for exc in (False, True):
+        for n_in, n_out in shapes_v2:
+            n = n_in if focus == "in" else n_out
+            for p in range(T):
+                for vec in all_vectors(n, ["a", "r"]):
+                    cases.append(conv("v2", "", exc, n_in, n_out, p, vec, T))
+    if tier == "thorough":
+        for i in range(1500):
+            ver = rng.choice(["v1", "v1", "v2"])
+            mode, exc = rng.choice(V1_CONFIGS) if ver == "v1" else ("", rng.random() < 0.5)
+            n_in, n_out = rng.randint(0, 4), rng.randint(0, 4)
+            TT = rng.choice([4, 5])
+            salt = "y%x" % rng.getrandbits(20)
+            p = rng.randrange(TT)
+            n = n_in if focus == "in" else n_out
+            vec = rand_vec(rng, n, ["a", "r", "w"] if ver == "v1" else ["a", "r"], 0.3)
+            cases.append(conv(ver, mode, exc, n_in, n_out, p, vec, TT, salt))
+    return cases
+
+
+if __name__ == "__main__":
+    if len(sys.argv) >= 4 and sys.argv[1] == "--worker":
+        _worker(sys.argv[2], sys.argv[3])
+    else:
+        case = json.loads(sys.argv[1])
+        obs = run_case(case)
+        for t in obs:
             print(json.dumps(t))
+        print(case_term(case, obs))
